@@ -406,12 +406,19 @@ class EnvironBuilder:
         .. versionadded:: 0.15
         """
         headers = Headers(EnvironHeaders(environ))
+
+        def _decode_path(value: str) -> str:
+            # The environ holds unquoted paths, the builder takes URLs. Keep
+            # the characters that would be read as URL syntax quoted.
+            value = _wsgi_decoding_dance(value)
+            return value.replace("%", "%25").replace("?", "%3F").replace("#", "%23")
+
         out = {
-            "path": _wsgi_decoding_dance(environ["PATH_INFO"]),
+            "path": _decode_path(environ["PATH_INFO"]),
             "base_url": cls._make_base_url(
                 environ["wsgi.url_scheme"],
                 headers.pop("Host"),
-                _wsgi_decoding_dance(environ["SCRIPT_NAME"]),
+                _decode_path(environ["SCRIPT_NAME"]),
             ),
             "query_string": _wsgi_decoding_dance(environ["QUERY_STRING"]),
             "method": environ["REQUEST_METHOD"],
